@@ -203,7 +203,9 @@ type vLabOutcome struct {
 	TwoSettle  bool
 	// DepositSettles: a deposit settled the account (a variant the statement allows)
 	DepositSettles bool
-	Final          string
+	// EagerPayout: accrued amounts were paid out before the payee asked (allowed)
+	EagerPayout bool
+	Final       string
 }
 
 // run executes ops on a cache branch next to the model and compares after
@@ -343,9 +345,21 @@ func (l *vLab) run(ops []vLabOp) vLabOutcome {
 					mp.wd, mp.bal = cred.Int64(), 0
 					mp.lo, mp.hi = mp.wd, mp.wd
 				} else {
-					if !p.Balance.Amount.Equal(sdk.NewInt(mp.bal)) || !p.Withdrawn.Amount.Equal(sdk.NewInt(mp.wd)) {
-						bad("payment-accrual-exact", trig, fmt.Sprintf("after %s: payment p%d (rate %d, created at +%d) has balance %s withdrawn %s, expected %d / %d",
-							vOpsString(ops[:idx+1]), i, mp.rate, mp.createdAt-l.c.height, p.Balance.Amount, p.Withdrawn.Amount, mp.bal, mp.wd))
+					// what a payee has accrued is balance + withdrawn; how much of it
+					// has already been paid out is left to the implementation (it may
+					// pay at every settlement), except that the payee's own withdraw
+					// or close pays everything
+					if !cred.Equal(sdk.NewInt(mp.bal + mp.wd)) {
+						bad("payment-accrual-exact", trig, fmt.Sprintf("after %s: payment p%d (rate %d, created at +%d) has balance %s + withdrawn %s, expected %d in total",
+							vOpsString(ops[:idx+1]), i, mp.rate, mp.createdAt-l.c.height, p.Balance.Amount, p.Withdrawn.Amount, mp.bal+mp.wd))
+					} else {
+						if mp.bal == 0 && !p.Balance.IsZero() {
+							bad("withdraw-pays-everything", trig, fmt.Sprintf("after %s: payment p%d keeps balance %s although everything accrued was to be paid out", vOpsString(ops[:idx+1]), i, p.Balance.Amount))
+						}
+						if !p.Balance.Amount.Equal(sdk.NewInt(mp.bal)) {
+							out.EagerPayout = true
+						}
+						mp.bal, mp.wd = p.Balance.Amount.Int64(), p.Withdrawn.Amount.Int64()
 					}
 				}
 				// never more than rate x blocks-open
